@@ -198,7 +198,7 @@ func (c *Ctx) simWorkers(sim string) int {
 func jeScenarios(c *Ctx, prop string) {
 	keep := map[string]map[string]bool{
 		"C01": {"invalid-json": true, "panic": true, "entry-lost": true, "sink:hang": true},
-		"C02": {"value": true, "invalid-json": true},
+		"C02": {"value": true, "invalid-json": true, "entry-lost": true},
 		"C08": {"value": true, "invalid-json": true, "panic": true},
 		"C07": {"value": true, "invalid-json": true},
 		"C10": {"invalid-json": true, "panic": true, "entry-lost": true, "value": true, "sink:not-reported": true, "sink:hang": true},
@@ -207,6 +207,16 @@ func jeScenarios(c *Ctx, prop string) {
 		fs := replayReflectOverlap()
 		if prop == "C01" || prop == "C10" || prop == "C07" {
 			fs = append(fs, replayAfterSinkError()...)
+		}
+		if prop == "C01" && rep == 0 {
+			for _, f := range sharedFileLines() {
+				fs = append(fs, jeFinding{Key: f.Key, What: f.What})
+			}
+		}
+		if prop != "C07" && rep == 0 {
+			for _, f := range replayOddFaults() {
+				fs = append(fs, jeFinding{Key: f.Key, What: f.What})
+			}
 		}
 		for _, f := range fs {
 			if f.Key == "harness" {
